@@ -673,3 +673,160 @@ func c15ReinsertLater(c *Ctx) {
 		c.R.Errorf("C15.reinsert-strictly-later: no comparison between the delete time and the statement time found in Insert")
 	}
 }
+
+// ---- C15.filter-restarts: xFilter starts the scan over -------------------------------------------------
+
+func init() {
+	register(&Rule{Name: "C15.filter-restarts", Min: 3, Run: c15FilterRestarts,
+		Doc: "sibling check over every cursor type: the field its Eof() reports is assigned on every successful path of its Filter (directly or in a method Filter calls on the same receiver)"})
+	byProp["C15"] = append(byProp["C15"], "C15.filter-restarts")
+	byProp["C12"] = append(byProp["C12"], "C15.filter-restarts")
+	byProp["C06"] = append(byProp["C06"], "C15.filter-restarts")
+	explain["C15"] += " filter-restarts: 'write_time and deadline … are readable back from s3db_conn' — also when s3db_conn is the inner table of a join: SQLite calls xFilter once per outer row on the same cursor, and a cursor whose end-of-scan flag is set only by Next and never by Filter answers the first scan only. For every type with Filter and an Eof() that returns a field of the receiver, every possibly-successful return of Filter lies behind an assignment of that field — in Filter itself or in a method it calls on its receiver."
+	explain["C12"] += " filter-restarts (shared with C15): the same for the s3db_changes cursor, whose diff cannot be rewound: a second xFilter replaces the whole cursor by a freshly opened one (a whole-struct assignment counts; so does the still-false side of a first-scan marker that only Filter sets)."
+	explain["C06"] += " filter-restarts (shared with C15): the table's own cursor assigns its end-of-scan flag on every path of Filter."
+}
+
+func c15FilterRestarts(c *Ctx) {
+	const rule = "C15.filter-restarts"
+	n := 0
+	for _, pk := range c.P.Roots {
+		rel := strings.TrimPrefix(strings.TrimPrefix(pk.PkgPath, core.ModPath), "/")
+		if !an.LibraryPkg(rel) {
+			continue
+		}
+		for _, tnName := range pk.Types.Scope().Names() {
+			tn, ok := pk.Types.Scope().Lookup(tnName).(*types.TypeName)
+			if !ok {
+				continue
+			}
+			ptr := types.NewPointer(tn.Type())
+			ms := c.P.SSA.MethodSets.MethodSet(ptr)
+			var filter, eof *ssa.Function
+			for i := 0; i < ms.Len(); i++ {
+				switch ms.At(i).Obj().Name() {
+				case "Filter":
+					filter = c.P.SSA.MethodValue(ms.At(i))
+				case "Eof":
+					eof = c.P.SSA.MethodValue(ms.At(i))
+				}
+			}
+			if filter == nil || eof == nil || len(filter.Blocks) == 0 || len(eof.Blocks) == 0 || filter.Synthetic != "" {
+				continue
+			}
+			// the field Eof() reports
+			var flag *types.Var
+			for _, b := range eof.Blocks {
+				if ret, ok := b.Instrs[len(b.Instrs)-1].(*ssa.Return); ok && len(ret.Results) == 1 {
+					if fv := an.FieldOfLoad(ret.Results[0]); fv != nil {
+						flag = fv
+					}
+				}
+			}
+			if flag == nil {
+				continue // delegates (the sqlite adapter of the table's cursor): judged where the field lives
+			}
+			n++
+			name := core.FuncName(filter)
+			c.R.SawFunc(name)
+			storesFlag := func(fn *ssa.Function) bool {
+				for _, b := range fn.Blocks {
+					for _, in := range b.Instrs {
+						if st, ok := in.(*ssa.Store); ok {
+							if fa, ok := st.Addr.(*ssa.FieldAddr); ok && an.FieldVar(fa.X.Type(), fa.Field) == flag {
+								return true
+							}
+						}
+					}
+				}
+				return false
+			}
+			// methods on the same receiver that assign the flag on every path they return from
+			assignsAlways := func(fn *ssa.Function) bool {
+				if !storesFlag(fn) {
+					return false
+				}
+				h := an.THooks{Instr: func(in ssa.Instruction, st an.TState) an.TState {
+					if s, ok := in.(*ssa.Store); ok {
+						if fa, ok := s.Addr.(*ssa.FieldAddr); ok && an.FieldVar(fa.X.Type(), fa.Field) == flag {
+							return ansState(true)
+						}
+					}
+					return st
+				}}
+				for _, ex := range an.WalkTypestate(fn, ansState(false), h, nil) {
+					if ex.ErrNil != 0 && !bool(ex.St.(ansState)) {
+						return false
+					}
+				}
+				return true
+			}
+			// "first scan" marker: a boolean field of the cursor that only Filter sets, and sets to true.
+			// On the side where it is still false the cursor is as it was constructed.
+			firstMarker := func(fv *types.Var) bool {
+				if fv == nil || fv == flag {
+					return false
+				}
+				if b, ok := fv.Type().Underlying().(*types.Basic); !ok || b.Kind() != types.Bool {
+					return false
+				}
+				setInFilter := false
+				for _, f := range c.P.RepoFuncs(an.LibraryPkg) {
+					for _, b := range f.Blocks {
+						for _, in := range b.Instrs {
+							st, ok := in.(*ssa.Store)
+							if !ok {
+								continue
+							}
+							fa, ok := st.Addr.(*ssa.FieldAddr)
+							if !ok || an.FieldVar(fa.X.Type(), fa.Field) != fv {
+								continue
+							}
+							cb, isC := constBool(st.Val)
+							if f != filter || !isC || !cb {
+								return false
+							}
+							setInFilter = true
+						}
+					}
+				}
+				return setInFilter
+			}
+			recv := filter.Params[0]
+			h := an.THooks{Instr: func(in ssa.Instruction, st an.TState) an.TState {
+				switch x := in.(type) {
+				case *ssa.Store:
+					if fa, ok := x.Addr.(*ssa.FieldAddr); ok && an.FieldVar(fa.X.Type(), fa.Field) == flag {
+						return ansState(true)
+					}
+					if x.Addr == ssa.Value(recv) {
+						return ansState(true) // *c = <another cursor>: every field is assigned
+					}
+				case ssa.CallInstruction:
+					if cal := x.Common().StaticCallee(); cal != nil && cal != filter && len(cal.Blocks) > 0 && len(x.Common().Args) > 0 && x.Common().Args[0] == ssa.Value(recv) && assignsAlways(cal) {
+						return ansState(true)
+					}
+				}
+				return st
+			}, Branch: func(iff *ssa.If, side bool, st an.TState) an.TState {
+				cond, neg := an.StripNot(iff.Cond)
+				if side == neg && firstMarker(an.FieldOfLoad(cond)) {
+					return ansState(true) // the first scan of a cursor: the flag is as constructed
+				}
+				return st
+			}}
+			good := true
+			why := ""
+			for _, ex := range an.WalkTypestate(filter, ansState(false), h, c.Scope(filter)) {
+				if ex.ErrNil != 0 && !bool(ex.St.(ansState)) {
+					good = false
+					why = fmt.Sprintf("Filter can return successfully at %s without assigning %s, which Eof() reports: after the first scan the flag stays set, and a second xFilter on the cursor (the table as the inner loop of a join, a correlated sub-query) yields no rows", c.P.Pos(ex.Ret.Pos()), flag.Name())
+				}
+			}
+			c.R.Cond(good, rule, name+": the end-of-scan flag is assigned", c.P.Pos(filter.Pos()), "every successful path of Filter assigns "+flag.Name(), why)
+		}
+	}
+	if n < 3 {
+		c.R.Errorf("C15.filter-restarts: only %d cursor types with an Eof() field found (conn, vacuum, changes, table cursor expected)", n)
+	}
+}
